@@ -1023,3 +1023,97 @@ M("N28", "coordinator: `while let`-free loop kept, but add_done moved into a hel
 
     fn execute_directory(&mut self, dir: AbsPath, recursive: bool) {""")],
   {})
+
+# ------------------------------------------------------------------ deeper-structure rules (R02.7 R03.7 R04.7 R11.6 R12.4 R14.6 R15.5)
+M("M70", "add_dependency records an edge even for a finished dependency (depender waits forever / lost wake-up)",
+  [(DEP, """            if self.finished.contains(dependency) {
+                continue;
+            }
+""", "")],
+  {"C02": ["R02.7"]})
+M("M71", "notify_finish releases a depender as soon as ANY dependency finishes",
+  [(DEP, "            if *count <= 1 {", "            if *count <= 2 {")],
+  {"C02": ["R02.7"]})
+M("M72", "notify_finish forgets to record the finished file when it has no dependers",
+  [(DEP, """        self.finished.insert(finished.clone());
+        // Get all dependers of finished
+        let mut output = HashSet::new();
+        let in_edges = match self.in_edges.remove(finished) {
+            Some(in_edges) => in_edges,
+            None => return output,
+        };""", """        // Get all dependers of finished
+        let mut output = HashSet::new();
+        let in_edges = match self.in_edges.remove(finished) {
+            Some(in_edges) => in_edges,
+            None => return output,
+        };
+        self.finished.insert(finished.clone());""")],
+  {"C02": ["R02.7"]})
+M("M73", "Progress::is_done uses >= (an over-count ends the loop early)",
+  [("src/core/util/progress.rs", "        self.done_count == self.total_count", "        self.done_count >= self.total_count")],
+  {"C03": ["R03.7"]})
+M("M74", "add_done_quiet-style bug: add_total adds to done_count",
+  [("src/core/util/progress.rs", """        self.total_count += count;
+        self.update_progress()""", """        self.done_count += count;
+        self.update_progress()""")],
+  {"C03": ["R03.7"]})
+M("M75", "a disconnected channel just ends the loop",
+  [(EX, """                    return Err(Report::new(TxtppError)
+                        .attach_printable("workers are disconnected unexpectedly."));""", """                    log::error!("workers are disconnected unexpectedly.");
+                    break;""")],
+  {"C04": ["R04.7"]})
+M("M76", "line ending table returns a bare CR for a CR-terminated first line",
+  [("src/fs/line_ending.rs", """            if buf[len - 1] == b'\\n' {
+                if buf[len - 2] == b'\\r' {
+                    CRLF
+                } else {
+                    LF
+                }
+            } else {
+                OS_LINE_ENDING
+            }""", """            if buf[len - 1] == b'\\n' {
+                if buf[len - 2] == b'\\r' {
+                    CRLF
+                } else {
+                    LF
+                }
+            } else if buf[len - 1] == b'\\r' {
+                "\\r"
+            } else {
+                OS_LINE_ENDING
+            }""")],
+  {"C12": ["R12.4"]})
+M("M77", "try_store keeps listening after storing (the next directive overwrites the tag)",
+  [(TAG, """                self.stored.insert(tag.clone(), content.to_string());
+                self.listening = None;
+                Ok(())""", """                self.stored.insert(tag.clone(), content.to_string());
+                Ok(())""")],
+  {"C14": ["R14.6"]})
+M("M78", "inject_tags does not remove the substituted tag",
+  [(TAG, """            last_end = i + key.len();
+            to_remove.push(key.to_string());""", """            last_end = i + key.len();
+            if value.is_empty() {
+                to_remove.push(key.to_string());
+            }""")],
+  {"C14": ["R14.6"]})
+M("M79", "inject_tags locates the LAST occurrence of a tag",
+  [(TAG, "            .filter_map(|(k, v)| output.find(k).map(|i| (i, k, v)))", "            .filter_map(|(k, v)| output.rfind(k).map(|i| (i, k, v)))")],
+  {"C14": ["R14.6"]})
+M("M80", "add_line: the spaces continuation form is dropped",
+  [(DADD, """            if line.starts_with(&self.prefix) || line.starts_with(&" ".repeat(self.prefix.len())) {""", """            if line.starts_with(&self.prefix) {""")],
+  {"C15": ["R15.5"]})
+M("M81", "add_line: continuation arguments are no longer right-trimmed",
+  [(DADD, """                    line[self.prefix.len()..]
+                        .trim_end_matches(char::is_whitespace)
+                        .to_string(),""", """                    line[self.prefix.len()..]
+                        .to_string(),""")],
+  {"C15": ["R15.5"]})
+M("M82", "is_txtpp_file only looks at the last extension (foo.txtpp.ext no longer a source)",
+  [(PM, """                // check if the second extension is txtpp
+                let mut p = self.clone();
+                p.set_extension("");
+                match p.extension() {
+                    Some(ext) => ext == TXTPP_EXT,
+                    None => false,
+                }""", """                false""")],
+  {"C11": ["R11.6"]})
